@@ -82,6 +82,11 @@ let handle (ws : string list) : string = match ws with
   | "meet" :: r -> let (l, r) = ty r in let (rr, _) = ty r in oty (C.meet_types (ct ()) !fuel l rr)
   | "simpl" :: r -> let (items, _) = counted ty r in oty (C.make_simplified_union (ct ()) !fuel items)
   | ["chains"; n] -> if C.chains_ok (ct ()) (nat_of_int (int_of_string n)) then "true" else "false"
+  | ["wfcontr"] -> if C.wf_contr (ct ()) then "true" else "false"
+  | "litsok" :: r -> let (t, _) = ty r in if C.lits_ok (ct ()) t then "true" else "false"
+  | "nocontr" :: r -> let (t, _) = ty r in if C.no_contr (ct ()) t then "true" else "false"
+  | ["wfgen"] -> if C.wf_gen (ct ()) then "true" else "false"
+  | "frag2" :: r -> let (t, _) = ty r in if C.frag2 (ct ()) t then "true" else "false"
   | ["wf"] -> if C.wf_ct (ct ()) then "true" else "false"
   | "fragup" :: r -> let (t, _) = ty r in if C.frag_up (ct ()) t then "true" else "false"
   | "frag1" :: r -> let (t, _) = ty r in if C.frag1 (ct ()) t then "true" else "false"
